@@ -13,6 +13,7 @@ import (
 	"math/big"
 	"os"
 	stdsync "sync"
+	"sync/atomic"
 	"testing"
 	"time"
 
@@ -226,14 +227,25 @@ func TestRace(t *testing.T) {
 	scs = append(scs, scripts(maxScript)...)
 	// independent watcher instances: the scenarios are spread over a few workers
 	var wg stdsync.WaitGroup
+	var hung atomic.Bool
 	next := make(chan scenario)
 	for k := 0; k < 8; k++ {
 		wg.Add(1)
 		go func() {
 			defer wg.Done()
 			for sc := range next {
-				for i := 0; i < iters; i++ {
-					raceBody(sc)
+				for i := 0; i < iters && !hung.Load(); i++ {
+					done := make(chan struct{})
+					go func() { raceBody(sc); close(done) }()
+					select {
+					case <-done:
+					case <-time.After(20 * time.Second):
+						// free-running, a deadlock of the watcher is a hang: deadlocks are the business of the
+						// exploration stage, the audit only gives up (its goroutines are left behind)
+						if !hung.Swap(true) {
+							res.Cap("race audit abandoned: a free-running run of %v did not end within 20 s (deadlocks are judged by the exploration stage)", sc)
+						}
+					}
 				}
 			}
 		}()
